@@ -79,6 +79,18 @@ var boundaryForms = []struct{ boundary, form, body string }{
 	{"argument", "f(x,c)", "func f(a T, p T) T {\n\treturn a + p\n}\n\nfunc main() {\n\tvar x T = T(3)\n\tv := f(x, C)\n\tfmt.Printf(\"%T %v\\n\", v, v)\n}\n"},
 	{"return", "return-c", "func f() T {\n\treturn C\n}\n\nfunc main() {\n\tv := f()\n\tfmt.Printf(\"%T %v\\n\", v, v)\n}\n"},
 	{"return", "return-x*c", "func f(x T) T {\n\treturn x * C\n}\n\nfunc main() {\n\tv := f(T(3))\n\tfmt.Printf(\"%T %v\\n\", v, v)\n}\n"},
+
+	// store targets other than a plain variable: the constant is stored after the
+	// target exists, then the stored value is printed with its type and used in
+	// arithmetic, which exposes the type it was stored with
+	{"assignment", "struct-field", "type rec struct {\n\tname string\n\tfld T\n}\n\nfunc main() {\n\ts := rec{name: \"r\", fld: T(3)}\n\ts.fld = C\n\tfmt.Printf(\"%T %v\\n\", s.fld, s.fld)\n\ty := s.fld / 4\n\tfmt.Printf(\"%T %v\\n\", y, y)\n\tz := s.fld + s.fld\n\tfmt.Printf(\"%T %v\\n\", z, z)\n\tfmt.Println(s)\n}\n"},
+	{"assignment", "struct-field-via-pointer", "type rec struct {\n\tfld T\n}\n\nfunc main() {\n\ts := rec{fld: T(3)}\n\tp := &s\n\tp.fld = C\n\tfmt.Printf(\"%T %v\\n\", s.fld, s.fld)\n\ty := s.fld / 4\n\tfmt.Printf(\"%T %v\\n\", y, y)\n}\n"},
+	{"assignment", "array-element", "func main() {\n\ta := []T{T(3), T(4)}\n\ta[1] = C\n\tfmt.Printf(\"%T %v\\n\", a[1], a[1])\n\ty := a[1] / 4\n\tfmt.Printf(\"%T %v\\n\", y, y)\n\tfmt.Println(a)\n}\n"},
+	{"assignment", "map-value", "func main() {\n\tm := map[string]T{\"k\": T(3)}\n\tm[\"k\"] = C\n\tv := m[\"k\"]\n\tfmt.Printf(\"%T %v\\n\", v, v)\n\ty := v / 4\n\tfmt.Printf(\"%T %v\\n\", y, y)\n}\n"},
+	{"assignment", "pointer-target", "func main() {\n\tvar x T = T(3)\n\tp := &x\n\t*p = C\n\tfmt.Printf(\"%T %v\\n\", x, x)\n\ty := x / 4\n\tfmt.Printf(\"%T %v\\n\", y, y)\n}\n"},
+	{"assignment", "named-result", "func f() (r T) {\n\tr = C\n\treturn r\n}\n\nfunc main() {\n\tv := f()\n\tfmt.Printf(\"%T %v\\n\", v, v)\n\ty := v / 4\n\tfmt.Printf(\"%T %v\\n\", y, y)\n}\n"},
+	// x % constant: the result keeps x's type in both modes
+	{"expression", "x%c", "func main() {\n\tvar x T = T(7)\n\ty := x % C\n\tfmt.Printf(\"%T %v\\n\", y, y)\n\tx = x % C\n\tfmt.Printf(\"%T %v\\n\", x, x)\n}\n"},
 }
 
 func directedC04() []progCase {
